@@ -1349,14 +1349,18 @@ MANIFEST = {
                   "referring_objects, of sections and of sources) are exactly the inverse of the stored links. Ids as texts: "
                   "the look-up chain behind `self.id in container` (Container.__contains__ -> H5Group.get_by_id -> name "
                   "fall-back, Generated/IdLookup.lean) compares the key as given and create_section(oid=...) stores the text as "
-                  "given, hence Section.parent / Source.parent_source evaluated on the stored id texts are the containing "
-                  "entity for every assignment of pairwise different id texts in any spelling uuid.UUID reads.",
+                  "given, hence Section.parent / Source.parent_source / find_related / the referring lists evaluated on the "
+                  "stored id texts are what the key-level theorems say, for every assignment of pairwise different id texts "
+                  "in any spelling uuid.UUID reads, and for every history whose create_section calls supply such ids "
+                  "(Pure/TreeIdsHist.lean, parent_history_code).",
     "level_note": "The interpreter of the extracted shape is what the correspondence driver executes; statements the "
                   "translator does not parameterise are matched literally (an unexpected statement is a broken tie, not a "
                   "silent pass). The forest model and the interpreter are tied to the code by differential histories on "
                   "real HDF5 files (names repeated across subtrees and levels, sections with caller-supplied ids in upper case / "
                   "braces / urn / without hyphens / mixed case, copies, handles that are cached / re-fetched "
-                  "/ found / reached through metadata and source links, reopen). Partial aspects: limits are naturals; "
+                  "/ found / reached through metadata and source links, reopen). Partial aspects: a look-up that would "
+                  "canonicalise both the key and the stored id is outside what the id-text theorems accept (idempotence of "
+                  "the modelled str(uuid.UUID(.)) is not proved); limits are naturals; "
                   "'unlimited' assumes tree height <= sys.maxsize; ids are creation counters (uuid4 freshness assumed); "
                   "copies with kept ids, copies through link-reached handles and name/id dispatch for UUID-like names are "
                   "outside (C20/C03); data frames are outside the property's quantifier (Section has no "
